@@ -4,8 +4,8 @@
 # (VT_REPO override), so that /repo itself stays untouched and other work can go on.
 set -u
 NAME=$1; shift
-WT=/tmp/wt_seed
-SW=/verif/work_seed
+WT=${WT:-/tmp/wt_seed}
+SW=${SW:-/verif/work_seed}
 mkdir -p $SW/out
 if [ ! -d $WT ]; then git -C /repo worktree add --detach $WT HEAD -q || exit 2; fi
 git -C $WT checkout -q --detach $(git -C /repo rev-parse HEAD) 2>/dev/null
